@@ -267,3 +267,154 @@ Proof.
     as (ann & evs & EC & -> & -> & _ & _ & St & _).
   exists ann. repeat split; auto.
 Qed.
+
+(* ---------- reading an annotations object back ---------- *)
+Definition consp (c : N) (p : option (str * str)) : option (str * str) :=
+  match p with Some (y, rest) => Some (c :: y, rest) | None => None end.
+Definition appp (x : str) (p : option (str * str)) : option (str * str) :=
+  match p with Some (y, rest) => Some (x ++ y, rest) | None => None end.
+
+Lemma rb_raw c t : 128 <= c -> read_body (c :: t) = consp c (read_body t).
+Proof.
+  intro G. simpl.
+  assert (E1 : (c =? 92) = false) by (apply N.eqb_neq; lia).
+  assert (E2 : (c =? 34) = false) by (apply N.eqb_neq; lia).
+  assert (E3 : (c <? 32) = false) by (apply N.ltb_ge; lia).
+  rewrite E2, E1, E3. reflexivity.
+Qed.
+
+Lemma rb_fffd t : read_body (esc_fffd ++ t) = appp ufffd (read_body t).
+Proof. reflexivity. Qed.
+
+Lemma rb_2028 b2 t :
+  b2 = 168 \/ b2 = 169 -> read_body (esc_2028 b2 ++ t) = appp [226; 128; b2] (read_body t).
+Proof. intros [-> | ->]; reflexivity. Qed.
+
+Lemma rb_u00 c t : c < 128 -> read_body (esc_u00 c ++ t) = consp c (read_body t).
+Proof.
+  intro L. unfold esc_u00. cbn [app read_body N.eqb Pos.eqb].
+  change (unhex 48) with (Some 0).
+  rewrite (unhex_hex_digit (c / 16)) by (apply N.div_lt_upper_bound; lia).
+  rewrite (unhex_hex_digit (c mod 16)) by (apply N.mod_lt; lia).
+  assert (E : ((0 * 16 + 0) * 16 + c / 16) * 16 + c mod 16 = c).
+  { rewrite (N.div_mod c 16) at 3 by lia. lia. }
+  rewrite E. unfold utf8_enc. apply N.ltb_lt in L. rewrite L. reflexivity.
+Qed.
+
+Lemma rb_ascii c t : c < 128 -> read_body (esc_ascii c ++ t) = consp c (read_body t).
+Proof.
+  intro L. unfold esc_ascii.
+  destruct ((c =? 34) || (c =? 92)) eqn:Q.
+  { apply orb_true_iff in Q as [Q | Q]; apply N.eqb_eq in Q; subst; reflexivity. }
+  apply orb_false_iff in Q as [Q1 Q2].
+  destruct (c =? 8) eqn:E8; [apply N.eqb_eq in E8; subst; reflexivity|].
+  destruct (c =? 12) eqn:E12; [apply N.eqb_eq in E12; subst; reflexivity|].
+  destruct (c =? 10) eqn:E10; [apply N.eqb_eq in E10; subst; reflexivity|].
+  destruct (c =? 13) eqn:E13; [apply N.eqb_eq in E13; subst; reflexivity|].
+  destruct (c =? 9) eqn:E9; [apply N.eqb_eq in E9; subst; reflexivity|].
+  destruct ((c <? 32) || (c =? 60) || (c =? 62) || (c =? 38)) eqn:U; [now apply rb_u00|].
+  apply orb_false_iff in U as [U _]. apply orb_false_iff in U as [U _]. apply orb_false_iff in U as [U _].
+  simpl. now rewrite Q1, Q2, U.
+Qed.
+
+(* a string body is read up to its closing quote, whatever follows *)
+Lemma read_body_esc_n n : forall s rest, (length s <= n)%nat ->
+  read_body (json_esc s ++ 34 :: rest) = Some (utf8_san s, rest).
+Proof.
+  induction n as [|n IH]; intros s rest L.
+  { destruct s; [reflexivity | simpl in L; lia]. }
+  destruct s as [|b0 r1]; [reflexivity|].
+  assert (IH1 : read_body (json_esc r1 ++ 34 :: rest) = Some (utf8_san r1, rest)) by (apply IH; simpl in L; lia).
+  cbn [json_esc utf8_san].
+  destruct (b0 <? 128) eqn:A.
+  { apply N.ltb_lt in A. now rewrite <- app_assoc, rb_ascii, IH1. }
+  apply N.ltb_ge in A.
+  destruct r1 as [|b1 r2]; [reflexivity|].
+  assert (IH2 : read_body (json_esc r2 ++ 34 :: rest) = Some (utf8_san r2, rest)) by (apply IH; simpl in L; lia).
+  destruct (in_rng 194 223 b0 && utf8_cont b1) eqn:B.
+  { apply andb_true_iff in B as [_ B]. apply cont_ge in B. cbn [app].
+    now rewrite (rb_raw b0) by lia; rewrite (rb_raw b1) by lia; rewrite IH2. }
+  destruct r2 as [|b2 r3]; [now rewrite <- app_assoc, rb_fffd, IH1|].
+  assert (IH3 : read_body (json_esc r3 ++ 34 :: rest) = Some (utf8_san r3, rest)) by (apply IH; simpl in L; lia).
+  destruct (utf8_three b0 b1 && utf8_cont b2) eqn:C.
+  { apply andb_true_iff in C as [C1 C2]. apply three_ge in C1. apply cont_ge in C2.
+    destruct ((b0 =? 226) && (b1 =? 128) && ((b2 =? 168) || (b2 =? 169))) eqn:S.
+    - apply andb_true_iff in S as [S S3]. apply andb_true_iff in S as [S1 S2].
+      apply N.eqb_eq in S1, S2. subst b0 b1.
+      rewrite <- app_assoc, rb_2028, IH3; [reflexivity|].
+      apply orb_true_iff in S3 as [S3 | S3]; apply N.eqb_eq in S3; auto.
+    - cbn [app]. now rewrite (rb_raw b0) by lia; rewrite (rb_raw b1) by lia; rewrite (rb_raw b2) by lia; rewrite IH3. }
+  destruct r3 as [|b3 r4]; [now rewrite <- app_assoc, rb_fffd, IH1|].
+  assert (IH4 : read_body (json_esc r4 ++ 34 :: rest) = Some (utf8_san r4, rest)) by (apply IH; simpl in L; lia).
+  destruct (utf8_four b0 b1 && utf8_cont b2 && utf8_cont b3) eqn:D.
+  { apply andb_true_iff in D as [D D3]. apply andb_true_iff in D as [D1 D2].
+    apply four_ge in D1. apply cont_ge in D2, D3. cbn [app].
+    now rewrite (rb_raw b0) by lia; rewrite (rb_raw b1) by lia; rewrite (rb_raw b2) by lia;
+      rewrite (rb_raw b3) by lia; rewrite IH4. }
+  now rewrite <- app_assoc, rb_fffd, IH1.
+Qed.
+
+Lemma read_string_json s rest : read_string (json_string s ++ rest) = Some (utf8_san s, rest).
+Proof.
+  unfold json_string, read_string. cbn [app]. rewrite <- app_assoc. cbn [app].
+  apply (read_body_esc_n (length s)). lia.
+Qed.
+
+Definition json_pair (p : kv) : str := json_string (fst p) ++ 58 :: json_string (snd p).
+
+Lemma read_pair_json p rest :
+  read_pair (json_pair p ++ rest) = Some ((utf8_san (fst p), utf8_san (snd p)), rest).
+Proof.
+  unfold read_pair, json_pair. rewrite <- app_assoc. rewrite read_string_json. cbn [app].
+  now rewrite read_string_json.
+Qed.
+
+(* the tail of an object: the remaining pairs, each preceded by a comma, then "}" *)
+Fixpoint tail_of (l : list kv) : str :=
+  match l with
+  | [] => [125]
+  | p :: l' => 44 :: json_pair p ++ tail_of l'
+  end.
+
+Lemma read_more_tail l : forall fuel rest, (length l < fuel)%nat ->
+  read_more fuel (tail_of l ++ rest) = Some (san_ann l, rest).
+Proof.
+  induction l as [|p l IH]; intros fuel rest L; destruct fuel as [|f]; try (simpl in L; lia).
+  - reflexivity.
+  - cbn [tail_of app read_more]. rewrite <- app_assoc, read_pair_json.
+    rewrite IH by (simpl in L; lia). reflexivity.
+Qed.
+
+Lemma json_obj_pairs p l : json_obj (map json_pair (p :: l)) = 123 :: json_pair p ++ tail_of l.
+Proof.
+  unfold json_obj. f_equal. revert p. induction l as [|q l IH]; intro p.
+  - simpl. reflexivity.
+  - change (join comma (map json_pair (p :: q :: l))) with (json_pair p ++ comma ++ join comma (map json_pair (q :: l))).
+    rewrite <- app_assoc. f_equal. rewrite <- app_assoc. unfold comma. cbn [app tail_of]. f_equal. apply IH.
+Qed.
+
+Lemma tail_length l : (length l < length (tail_of l))%nat.
+Proof.
+  induction l as [|p l IH]; simpl; [lia|]. rewrite app_length. lia.
+Qed.
+
+(* reading back the object written for a list of pairs gives the pairs, coerced, in the written order *)
+Lemma read_obj_pairs l rest :
+  read_obj (json_obj (map json_pair l) ++ rest) = Some (san_ann l, rest).
+Proof.
+  destruct l as [|p l]; [reflexivity|].
+  rewrite json_obj_pairs. cbn [app]. rewrite <- app_assoc.
+  remember (json_pair p ++ tail_of l ++ rest) as body eqn:EB.
+  assert (HB : exists Z, body = 34 :: Z).
+  { subst body. unfold json_pair, json_string. cbn [app]. eexists. reflexivity. }
+  destruct HB as (Z & EZ).
+  unfold read_obj. rewrite EZ. cbv beta iota. rewrite <- EZ, EB.
+  rewrite read_pair_json. rewrite read_more_tail; [reflexivity|].
+  simpl. rewrite !app_length. pose proof (tail_length l). lia.
+Qed.
+
+(* the annotations object of a manifest reads back as the requested annotations, coerced to UTF-8,
+   in key order *)
+Theorem json_ann_roundtrip l rest :
+  read_obj (json_ann l ++ rest) = Some (san_ann (kv_sort l), rest).
+Proof. unfold json_ann. apply (read_obj_pairs (kv_sort l) rest). Qed.
